@@ -124,8 +124,33 @@ OpsB(b) ==
   \cup {[ev |-> e, a |-> [i |-> i]] : e \in {"get", "index"}, i \in 0..cap}
   \cup {[ev |-> e, a |-> [i |-> i, v |-> New(1)]] : e \in {"get_mut", "index_mut"}, i \in 0..cap}
   \cup {[ev |-> "drain", a |-> [k |-> k]] : k \in 0..(b.len + 1)}
+  \cup {[ev |-> "drain_nth", a |-> [k |-> k]] : k \in 0..(b.len + 1)}
+  \cup {[ev |-> "drain_step", a |-> [k |-> k, m |-> m]] : k \in {1, 2, cap + 1}, m \in {0, 1, 2, cap + 1}}
+  \cup {[ev |-> e, a |-> [x |-> 0]] : e \in {"drain_last", "drain_count"}}
   \cup {[ev |-> e, a |-> [vs |-> Seq1(b.len)]] : e \in {"iter_mut", "slices_mut"}}
   \cup {[ev |-> "extend", a |-> [vs |-> Seq1(n)]] : n \in {0, 1, 2, cap + 1}}
+
+
+\* The draining iterator pops one element per `next`; the provided Iterator methods are repeated `next`:
+\*   nth(k)            pops min(k+1, len) elements and returns the last of them only if there were k+1;
+\*   step_by(k).take(m) yields elements 0, k, 2k, ...; a step that runs off the end pops everything left;
+\*   last() / count()  pop everything.
+DrainNthPops(len, k)      == IF k + 1 <= len THEN k + 1 ELSE len
+DrainStepYield(len, k, m) == IF m = 0 \/ len = 0 THEN 0
+                             ELSE LET all == ((len - 1) \div k) + 1 IN IF m <= all THEN m ELSE all
+DrainStepPops(len, k, m)  == LET j == DrainStepYield(len, k, m) IN
+                             IF j = m THEN (IF m = 0 THEN 0 ELSE (m - 1) * k + 1) ELSE len
+DrainIterRet(items, op) ==
+  LET len == Len(items) IN
+  CASE op.ev = "drain_nth"   -> IF op.a.k + 1 <= len THEN Some(items[op.a.k + 1]) ELSE None
+    [] op.ev = "drain_step"  -> [k |-> "items", v |-> [i \in 1..DrainStepYield(len, op.a.k, op.a.m) |-> items[(i - 1) * op.a.k + 1]]]
+    [] op.ev = "drain_last"  -> IF len = 0 THEN None ELSE Some(items[len])
+    [] op.ev = "drain_count" -> Some(len)
+DrainIterPops(len, op) ==
+  CASE op.ev = "drain_nth"  -> DrainNthPops(len, op.a.k)
+    [] op.ev = "drain_step" -> DrainStepPops(len, op.a.k, op.a.m)
+    [] OTHER -> len
+DrainIterOps == {"drain_nth", "drain_step", "drain_last", "drain_count"}
 
 BIdx(a) == IF a.i < 0 THEN 2000000000 ELSE a.i    \* i = -1 encodes usize::MAX (out of range for any capacity)
 ApplyB(b, op) == \* layer 2
@@ -141,6 +166,8 @@ ApplyB(b, op) == \* layer 2
     [] op.ev = "drain" -> LET k == IF op.a.k <= b.len THEN op.a.k ELSE b.len
                               r == BDrain(b, k)
                           IN [ret |-> [k |-> "items", v |-> r.items], b |-> r.b]
+    [] op.ev \in DrainIterOps -> LET r == BDrain(b, DrainIterPops(b.len, op))
+                                  IN [ret |-> DrainIterRet(BIter(b), op), b |-> r.b]
     [] op.ev \in {"iter_mut", "slices_mut"} ->
          \* writes vs[i] through the i-th yielded reference (slices: first then second)
          LET m == IF Len(op.a.vs) <= b.len THEN Len(op.a.vs) ELSE b.len
@@ -161,6 +188,7 @@ IdealB(q, cap, op) == \* layer 1
     [] op.ev = "drain" -> LET k == IF op.a.k <= Len(q) THEN op.a.k ELSE Len(q)
                               r == QDrain(q, k)
                           IN [ret |-> [k |-> "items", v |-> r.items], q |-> r.q]
+    [] op.ev \in DrainIterOps -> [ret |-> DrainIterRet(q, op), q |-> QDrain(q, DrainIterPops(Len(q), op)).q]
     [] op.ev \in {"iter_mut", "slices_mut"} -> [ret |-> [k |-> "items", v |-> SubSeq(q, 1, WLen(q, op.a.vs))],
                                                  q   |-> WriteThrough(q, op.a.vs)]
     [] op.ev = "extend" -> [ret |-> Unit, q |-> QExtend(q, cap, op.a.vs)]
